@@ -2,6 +2,8 @@
 C05 for SMTWTP: every order of the jobs `1..n` is a mask-confined finished episode; with C07 the set
 of complete mask-confined episodes IS the set of schedules, so the optimum stays reachable.
 -/
+import Rl4co.Props.C03.Smtwtp
+import Rl4co.Proofs.TspfamOpt
 import Rl4co.Proofs.TspfamSmtwtp
 import Rl4co.Props.C07.Smtwtp
 
@@ -21,5 +23,22 @@ theorem complete_run_iff_feasible (i : Inst) (hpos : 0 < i.n) (as : List Nat) :
   ⟨fun ⟨_, h, hd⟩ => perm_of_run i h hd, run_of_feasible i hpos⟩
 
 example : Spec.Smtwtp.Feasible 3 [2, 3, 1] := (Spec.Smtwtp.feasible_iff 3 [2, 3, 1]).mp (by decide)
+
+/-- **C05 (SMTWTP), the optimum stays reachable**: some complete mask-confined episode attains the minimum
+total weighted tardiness over all job orders, and no complete episode has a better reward. -/
+theorem opt_reachable (i : Inst) (hpos : 0 < i.n) :
+    ∃ as s, Run env i (env.reset i) as s ∧ env.done i s = true ∧
+      (∀ bs, Spec.Smtwtp.Feasible i.n bs →
+        Spec.Smtwtp.objective i.p i.d i.w as ≤ Spec.Smtwtp.objective i.p i.d i.w bs) ∧
+      (∀ bs t, Run env i (env.reset i) bs t → env.done i t = true → reward i bs ≤ reward i as) := by
+  obtain ⟨as, hperm, hmin⟩ := exists_min_perm (List.range' 1 i.n) (Spec.Smtwtp.objective i.p i.d i.w)
+  have hfeas : ∀ bs, Spec.Smtwtp.Feasible i.n bs →
+      Spec.Smtwtp.objective i.p i.d i.w as ≤ Spec.Smtwtp.objective i.p i.d i.w bs :=
+    fun bs hb => hmin bs ((Spec.Smtwtp.feasible_iff_perm i.n bs).mp hb)
+  obtain ⟨s, hrun, hd⟩ := run_of_feasible i hpos ((Spec.Smtwtp.feasible_iff_perm i.n as).mpr hperm)
+  refine ⟨as, s, hrun, hd, hfeas, ?_⟩
+  intro bs t hr hdt
+  rw [reward_eq_objective, reward_eq_objective]
+  have := hfeas bs (perm_of_run i hr hdt); omega
 
 end Rl4co.Smtwtp
